@@ -20,7 +20,8 @@ KF_FILE = os.path.join(VERIF, "known_findings.json")
 
 
 class Job:
-    def __init__(self, obligation, fn, params=None, cost=1, max_paths=200000, budget_s=1500):
+    def __init__(self, obligation, fn, params=None, cost=1, max_paths=200000, budget_s=1500, shards=1):
+        self.shards = shards
         self.obligation = obligation
         self.fn = fn
         self.params = params or {}
@@ -84,13 +85,14 @@ def run_concrete(fn, params, witness):
 def _raised_in_repo(e):
     """an escaping exception counts against the code under test only if the innermost Python
     frame of its traceback belongs to the repository (otherwise it is a harness / model error)"""
-    tb = traceback.extract_tb(e.__traceback__)
+    tb = [f for f in traceback.extract_tb(e.__traceback__)
+          if not os.path.realpath(f.filename).startswith(os.path.join(VERIF, "vsym") + os.sep)]  # proxies act as builtins
     return bool(tb) and os.path.realpath(tb[-1].filename).startswith(REPO)
 
 
 def run_job(args):
     """explore one job symbolically; returns a result dict (picklable)"""
-    mod_name, job_index, tier, seed, validate = args
+    mod_name, job_index, tier, seed, validate, shard = args
     import importlib
     from . import ctx as C
     from .core import (ENGINE, PathAbort, ViolationFound, EngineLimit, NonTermination,
@@ -100,8 +102,9 @@ def run_job(args):
     rng = random.Random((seed * 1000003) ^ zlib.crc32(job.key().encode()))
     eng = ENGINE
     eng.reset_stats()
+    eng.shard = shard
     open_kf = open_finding_ids(mod.PROPERTY)
-    res = {"job": job.key(), "obligation": job.obligation, "params": job.params, "paths": 0,
+    res = {"job": job.key() + ("" if shard is None else " shard %d/%d" % (shard[0] + 1, shard[1])), "obligation": job.obligation, "params": job.params, "paths": 0,
            "completed": 0, "aborted": 0, "decisions": 0, "queries": 0, "solver_s": 0.0,
            "validated": 0, "violation": None, "inconclusive": None, "functions": [],
            "labels": {}, "reach": {}, "samples": [], "harness_error": None, "wall_s": 0.0}
@@ -169,6 +172,9 @@ def run_job(args):
                 eng.end()
                 res["violation"] = {"label": viol[0], "inputs": viol[1], "detail": str(viol[2])[:3000]}
                 break
+            if completed and shard is not None and shard[0] != 0 and not eng.gated:
+                completed = False  # paths shorter than the sharding depth belong to shard 0
+                res["aborted"] += 1
             if completed:
                 res["completed"] += 1
                 for k, n in c.reach.items():
@@ -293,7 +299,10 @@ def main(mod, argv=None):
     idx = [i for i, j in enumerate(jobs) if not a.only or a.only in j.key()]
     idx.sort(key=lambda i: -jobs[i].cost)
     nproc = a.procs or min(len(idx), os.cpu_count() or 4, 16)
-    args = [(mod.__name__, i, tier, seed, True) for i in idx]
+    args = []
+    for i in idx:
+        n = jobs[i].shards
+        args.extend([(mod.__name__, i, tier, seed, True, (k, n) if n > 1 else None) for k in range(n)])
     results = []
     confirmed = {}  # job key -> (path, replay text) of violations that reproduced on the real code
     rep_dir = os.path.join(VERIF, "replays", prop)
